@@ -116,6 +116,14 @@ CLAIMED.update({
     },
 })
 
+CLAIMED.update({
+    "C15": {
+        "text": "Coq theorems (closed under the global context): for EVERY file whose lines are numbered, non-empty and tokenizable, pass 1 of the analyzer stores exactly what entering the lines one by one stores - the interpreter states are equal line after line (C15_pass1_is_typing); the analysis itself, whatever it reports, changes nothing but cursor-like fields (C15_analysis_keeps_program, a frame walk over the whole analyzer fork); hence the interpreter loaded from the file - with or without the static check, both use into_interpreter - IS the typed-in interpreter in every field but the hook counter (C15_load_eq), and answers LIST, RUN and every later call identically (C15_same_behaviour); in file mode and in piped mode the CLI talks to that same interpreter with the warnings / tracing options and the seed applied (C15_options). The process-level behaviour (stdout/stderr routing, exit status) is exercised by running the real abasic binary in both modes for all 8 option combinations and comparing program output, warnings and trace records.",
+        "design_ref": "DESIGN.md 6 C15",
+        "note": NOTE + "Process I/O, rustyline, colours, the banner and the time-derived seed are glue: exercised by the binary comparison, not modelled.",
+        "technique": "Coq proof: state equality by induction over the file's lines + frame relation over the analyzer fork of the evaluators; real-binary two-mode comparison + in-process load-vs-type correspondence",
+    },
+})
+
 _TODO = "check under construction in this session; not claimed until its theorems and correspondence are in place"
-NOT_CLAIMED = {p: _TODO for p in ["C03", "C06",
-                                  "C15", "C19", "C20"]}
+NOT_CLAIMED = {p: _TODO for p in ["C03", "C06", "C19", "C20"]}
